@@ -86,7 +86,7 @@ impl core::hash::Hash for TransactionId {
     fn hash<H: core::hash::Hasher>(&self, state: &mut H) { unimplemented!() }
 }
 //@item stun_agent :: mod integrity > fn validate_message_integrity
-//@tags C07 C08 C04
+//@tags C07 C08 C04 C13
 //@spec
     ensures r == mac_ok(*integrity, *key, raw_buffer@),
 //@end
@@ -103,7 +103,7 @@ impl TransportIntegrity {
     ensures r.is_reliable == is_reliable, r.violated() == Set::<TransactionId>::empty(),
 //@end
 //@item stun_agent :: mod integrity > impl TransportIntegrity > fn discard_message
-//@tags C07 C08 C17
+//@tags C07 C08 C17 C13
 //@head
     broadcast use axiom_txid_key_model;
 //@spec
@@ -111,7 +111,7 @@ impl TransportIntegrity {
         r == old(self).discard_outcome(message).0, final(self).violated() == old(self).discard_outcome(message).1,
 //@end
 //@item stun_agent :: mod integrity > impl TransportIntegrity > fn compute_message_integrity
-//@tags C07 C08 C17
+//@tags C07 C08 C17 C13
 //@head
     broadcast use axiom_txid_key_model;
 //@spec
@@ -125,7 +125,7 @@ impl TransportIntegrity {
             && final(self).violated() == old(self).discard_outcome(message).1,
 //@end
 //@item stun_agent :: mod integrity > impl TransportIntegrity > fn signal_protection_violated_on_timeout
-//@tags C07 C17
+//@tags C07 C17 C13
 //@head
     broadcast use axiom_txid_key_model;
 //@spec
@@ -296,13 +296,13 @@ pub open spec fn st_both(msg: &StunMessage) -> bool {
 impl ShortTermCredentialClient {
     pub open spec fn violated(&self) -> Set<TransactionId> { self.validator.violated() }
 //@item stun_agent :: mod st_cred_mech > impl ShortTermCredentialClient > fn new
-//@tags C07
+//@tags C07 C13
 //@spec
     ensures r.user_name == user_name, r.key == key, r.integrity == integrity, r.validator.is_reliable == is_reliable,
         r.violated() == Set::<TransactionId>::empty(),
 //@end
 //@item stun_agent :: mod st_cred_mech > impl ShortTermCredentialClient > fn process_message
-//@tags C07 C17
+//@tags C07 C17 C13
 //@rules R4
 //@sub "msg.attributes().protected_iter()" => "VxSliceRef(msg.attributes()).protected_iter()"
 //@head
@@ -365,7 +365,7 @@ impl ShortTermCredentialClient {
         },
 //@end
 //@item stun_agent :: mod st_cred_mech > impl ShortTermCredentialClient > fn recv_message
-//@tags C07 C17
+//@tags C07 C17 C13
 //@spec
     ensures
         final(self).user_name == old(self).user_name, final(self).key == old(self).key,
@@ -399,7 +399,7 @@ impl ShortTermCredentialClient {
     ensures final(attributes).wf(), st_prepared(*self, *old(attributes), *final(attributes)),
 //@end
 //@item stun_agent :: mod st_cred_mech > impl ShortTermCredentialClient > fn signal_protection_violated_on_timeout
-//@tags C07 C17
+//@tags C07 C17 C13
 //@spec
     ensures final(self).user_name == old(self).user_name, final(self).key == old(self).key, final(self).integrity == old(self).integrity,
         final(self).validator.is_reliable == old(self).validator.is_reliable,
@@ -543,7 +543,7 @@ impl PartialEq for LongTermCredentialState {
 }
 
 //@item stun_agent :: mod lt_cred_mech > fn create_user_hash_attr
-//@tags C08
+//@tags C08 C13
 //@sig
 fn create_user_hash_attr(transaction_id: &TransactionId, user_name: &UserName, realm: &Realm) -> (r: Result<UserHash, IntegrityError>)
 //@closure 1
@@ -564,7 +564,7 @@ pub open spec fn compute_post(v0: TransportIntegrity, v1: TransportIntegrity, ke
     &&& (r is Err ==> r->Err_0 == v0.discard_outcome(msg).0 && v1.violated() == v0.discard_outcome(msg).1)
 }
 //@item stun_agent :: mod lt_cred_mech > fn authenticate_message
-//@tags C08 C17
+//@tags C08 C17 C13
 //@spec
     ensures compute_post(*old(validator), *final(validator), *key,
         (match integrity { Integrity::MessageIntegrity => message_integrity, Integrity::MessageIntegritySha256 => message_integrity_sha256 }),
@@ -575,7 +575,7 @@ pub open spec fn lt_alg(pa: Option<PasswordAlgorithm>) -> Algorithm {
     match pa { Some(a) => a.alg(), None => algorithm_of(AlgorithmId::MD5) }
 }
 //@item stun_agent :: mod lt_cred_mech > fn create_long_term_auth_attrs
-//@tags C08
+//@tags C08 C13
 //@closure 1
 || -> (x: IntegrityError)
     ensures x is Discarded,
@@ -813,12 +813,12 @@ impl LongTermCredentialClient {
         old(self).state is Retry ==> lt_prepared(*old(self), *old(attributes), *final(attributes)),
 //@end
 //@item stun_agent :: mod lt_cred_mech > impl LongTermCredentialClient > fn prepare_indication
-//@tags C08
+//@tags C08 C13
 //@spec
     ensures r is Err && r->Err_0 is Ignored, *final(self) == *old(self), *final(_attributes) == *old(_attributes),
 //@end
 //@item stun_agent :: mod lt_cred_mech > impl LongTermCredentialClient > fn signal_protection_violated_on_timeout
-//@tags C08 C17
+//@tags C08 C17 C13
 //@spec
     ensures final(self).user_name == old(self).user_name, final(self).password == old(self).password,
         final(self).params == old(self).params, final(self).state == old(self).state,
@@ -830,7 +830,7 @@ impl LongTermCredentialClient {
         self.user_name == o.user_name && self.password == o.password && self.validator.is_reliable == o.validator.is_reliable
     }
 //@item stun_agent :: mod lt_cred_mech > impl LongTermCredentialClient > fn process_unauthenticated_error_response
-//@tags C08 C17
+//@tags C08 C17 C13
 //@spec
     ensures final(self).same_ident(old(self)),
         ({
@@ -852,7 +852,7 @@ impl LongTermCredentialClient {
         }),
 //@end
 //@item stun_agent :: mod lt_cred_mech > impl LongTermCredentialClient > fn process_stale_nonce_error_response
-//@tags C08 C17
+//@tags C08 C17 C13
 //@closure 1
 || -> (x: IntegrityError)
     ensures x is Discarded,
@@ -878,7 +878,7 @@ impl LongTermCredentialClient {
         },
 //@end
 //@item stun_agent :: mod lt_cred_mech > impl LongTermCredentialClient > fn process_error
-//@tags C08 C17
+//@tags C08 C17 C13
 //@spec
     ensures final(self).same_ident(old(self)), final(self).params == old(self).params, final(self).state == old(self).state,
         old(self).params is None ==> r == Err::<(), IntegrityError>(IntegrityError::Discarded) && *final(self) == *old(self),
@@ -887,7 +887,7 @@ impl LongTermCredentialClient {
             raw_buffer@, msg, r),
 //@end
 //@item stun_agent :: mod lt_cred_mech > impl LongTermCredentialClient > fn process_success_response
-//@tags C08 C17
+//@tags C08 C17 C13
 //@rules R4
 //@sub "msg.attributes().protected_iter()" => "VxSliceRef(msg.attributes()).protected_iter()"
 //@closure 1
@@ -954,7 +954,7 @@ impl LongTermCredentialClient {
         },
 //@end
 //@item stun_agent :: mod lt_cred_mech > impl LongTermCredentialClient > fn process_error_response
-//@tags C08 C17 C03
+//@tags C08 C17 C03 C13
 //@rules R4
 //@sub "msg.attributes().protected_iter()" => "VxSliceRef(msg.attributes()).protected_iter()"
 //@closure 1
@@ -1028,7 +1028,7 @@ impl LongTermCredentialClient {
         },
 //@end
 //@item stun_agent :: mod lt_cred_mech > impl LongTermCredentialClient > fn new
-//@tags C08
+//@tags C08 C13
 //@sig
 pub fn new(user_name: UserName, password: String, is_reliable: bool) -> (r: Self)
 //@sub "password: password.into()," => "password,"
@@ -1037,7 +1037,7 @@ pub fn new(user_name: UserName, password: String, is_reliable: bool) -> (r: Self
         r.validator.is_reliable == is_reliable, r.violated() == Set::<TransactionId>::empty(),
 //@end
 //@item stun_agent :: mod lt_cred_mech > impl LongTermCredentialClient > fn recv_message
-//@tags C08 C17 C03
+//@tags C08 C17 C03 C13
 //@spec
     requires old(self).wf(),
     ensures final(self).same_ident(old(self)), final(self).wf(),
@@ -1094,7 +1094,7 @@ impl CredentialMechanismClient {
         match self { CredentialMechanismClient::ShortTerm(m) => true, CredentialMechanismClient::LongTerm(m) => m.wf() }
     }
 //@item stun_agent :: mod client > impl CredentialMechanismClient > fn recv_message
-//@tags C17 C07 C08 C05
+//@tags C17 C07 C08 C05 C13
 //@spec
     requires old(self).wf(),
     ensures final(self).wf(),
@@ -1105,7 +1105,7 @@ impl CredentialMechanismClient {
                         && final(self).violated() == old(self).violated().insert(message.sid()))),
 //@end
 //@item stun_agent :: mod client > impl CredentialMechanismClient > fn signal_protection_violated_on_timeout
-//@tags C17 C07 C05
+//@tags C17 C07 C05 C13
 //@spec
     requires old(self).wf(),
     ensures final(self).wf(),
